@@ -49,6 +49,8 @@ func run(c *Ctx) error {
 	byz := base
 	byz.Byz, byz.Malformed = true, 12
 	add("byzantine", byz, c.N(15, 100))
+	// an epoch elects another validator set; a block-carried link skips it (oracle only: the model has one set)
+	cases = append(cases, g.DynCases(id, c.N(9, 45))...)
 	return engine.RunProperty(c, engine.Oracles{C17: true}, cases,
 		"a case counts as non-trivial when the node admitted a verification message, signed a vote of its own or justified a checkpoint")
 }
